@@ -347,6 +347,10 @@ fn oracle_file(spec: &str, queries: &str, data: &[u8], ann: &str) -> V {
         }
     };
     let class = f.ehdr.class;
+    // C13: file-level version queries against an independent decoder of the three version sections
+    if ann_get(ann, "clean") == Some("1") {
+        crate::oracle4::oracle_file_versions(&f, data)?;
+    }
     // C05: tables located as declared (builder ground truth for clean files)
     if ann_get(ann, "clean") == Some("1") {
         let shnum = nat(ann_get(ann, "shnum").unwrap_or("0"));
@@ -591,6 +595,28 @@ fn oracle_file(spec: &str, queries: &str, data: &[u8], ann: &str) -> V {
                             let scoped = count(abi::SHT_DYNAMIC) == 1 || !has_pt_dyn;
                             if scoped && dshow(&c.dynamic) != dshow(dy) {
                                 return Err("C20: find_common_data().dynamic differs from dynamic()".into());
+                            }
+                            // hash tables: the recorded table is `new` on the bytes of the one section of that type
+                            let sysv_want = match shdrs.iter().find(|s| s.sh_type == abi::SHT_HASH) {
+                                Some(s) => match f.section_data(&s) {
+                                    Ok((d, _)) => SysVHashTable::new(f.ehdr.endianness, class, d).ok().map(|t| format!("{:?}", t)),
+                                    Err(_) => None,
+                                },
+                                None => None,
+                            };
+                            let plain = |t: u32| shdrs.iter().filter(|s| s.sh_type == t).all(|s| s.sh_flags & abi::SHF_COMPRESSED as u64 == 0);
+                            if plain(abi::SHT_HASH) && c.sysv_hash.as_ref().map(|t| format!("{:?}", t)) != sysv_want {
+                                return Err("C20: find_common_data().sysv_hash differs from SysVHashTable::new on the .hash section's bytes".into());
+                            }
+                            let gnu_want = match shdrs.iter().find(|s| s.sh_type == abi::SHT_GNU_HASH) {
+                                Some(s) => match f.section_data(&s) {
+                                    Ok((d, _)) => GnuHashTable::new(f.ehdr.endianness, class, d).ok().map(|t| format!("{:?}", t)),
+                                    Err(_) => None,
+                                },
+                                None => None,
+                            };
+                            if plain(abi::SHT_GNU_HASH) && c.gnu_hash.as_ref().map(|t| format!("{:?}", t)) != gnu_want {
+                                return Err("C20: find_common_data().gnu_hash differs from GnuHashTable::new on the .gnu.hash section's bytes".into());
                             }
                         }
                         _ => return Err("C20: find_common_data() succeeded but a targeted accessor failed".into()),
